@@ -74,6 +74,9 @@ def result_of(kind, kw):
     if kind == "tuple_intarr":
         return (n % 977, np.array([n % 5, n % 7, n % 9], dtype=np.int64),
                 np.array([bool(n & 1), bool(n & 2)]))
+    if kind == "tuple_empty":
+        # (an array that happens to have no element is a result too)
+        return (float(n % 4096), np.zeros(0), np.arange(2.0) + (n % 512))
     if kind == "intarr2d":
         return np.arange(6, dtype=np.int64).reshape(2, 3) + (n % 4096)
     if kind == "tuple_strarr":
@@ -210,6 +213,8 @@ def shape_of(x):
     if isinstance(x, str):
         return ()
     try:
+        if len(x) == 0:
+            return (0,)
         return (len(x),) + shape_of(x[0])
     except TypeError:
         return ()
